@@ -15,6 +15,7 @@ import (
 	"fmt"
 	"go/ast"
 	"go/token"
+	"go/types"
 	"sort"
 	"strconv"
 	"strings"
@@ -158,7 +159,7 @@ func levelTable(p *pkgInfo, file, recv string) (map[string]int64, int64, bool) {
 
 func init() {
 	generators = append(generators, func() {
-		var b strings.Builder
+		var b, tb strings.Builder
 		cmd := loadPkg("cmd/pyscn")
 		dom := loadPkg("domain")
 		svc := loadPkg("service")
@@ -244,62 +245,82 @@ func init() {
 			fmt.Fprintf(&b, "Definition check_flag_default_%s : bool := %v.\n", flagName(k), bools[k])
 		}
 
-		// ---- severity level tables ----------------------------------------------------
-		dl, ddef, ok1 := levelTable(dom, "dead_code.go", "DeadCodeSeverity")
-		ml, mdef, ok2 := levelTable(dom, "mock_data.go", "MockDataSeverity")
+		// ---- severity level tables: Level() and IsAtLeast evaluated on the constants of the type -------------------
+		in := newInterp(cmd, dom, svc)
+		levelsOf := func(file, recv string, names []string) (map[string]int64, int64, bool) {
+			fd := findFunc(dom, file, recv, "Level")
+			if fd == nil {
+				return nil, 0, false
+			}
+			tab := map[string]int64{}
+			for _, n := range names {
+				c, _ := dom.pkg.Scope().Lookup(n).(*types.Const)
+				if c == nil {
+					fail("gen_check: constant domain.%s not found", n)
+					return nil, 0, false
+				}
+				cv, _ := constToValue(c.Val(), c.Type())
+				lv, err := asInt(in.call1(dom, fd, cv))
+				if err != nil {
+					fail("gen_check: %s.Level cannot be evaluated on %s: %v", recv, n, err)
+					return nil, 0, false
+				}
+				tab[n] = lv
+			}
+			other, err := asInt(in.call1(dom, fd, "no-such-severity"))
+			if err != nil {
+				fail("gen_check: %s.Level cannot be evaluated: %v", recv, err)
+				return nil, 0, false
+			}
+			return tab, other, true
+		}
+		deadNames := []string{"DeadCodeSeverityInfo", "DeadCodeSeverityWarning", "DeadCodeSeverityCritical"}
+		mockNames := []string{"MockDataSeverityInfo", "MockDataSeverityWarning", "MockDataSeverityError"}
+		dl, ddef, ok1 := levelsOf("dead_code.go", "DeadCodeSeverity", deadNames)
+		ml, mdef, ok2 := levelsOf("mock_data.go", "MockDataSeverity", mockNames)
 		if !ok1 || !ok2 {
-			fail("gen_check: Level() tables of DeadCodeSeverity / MockDataSeverity not in the expected shape")
+			fail("gen_check: Level() of DeadCodeSeverity / MockDataSeverity cannot be read")
 			return
 		}
 		b.WriteString("\n(* domain.DeadCodeSeverity.Level / domain.MockDataSeverity.Level *)\n")
-		for _, k := range []string{"DeadCodeSeverityInfo", "DeadCodeSeverityWarning", "DeadCodeSeverityCritical"} {
-			v, ok := dl[k]
-			if !ok {
-				fail("gen_check: %s missing from DeadCodeSeverity.Level", k)
-			}
-			fmt.Fprintf(&b, "Definition domain_level_%s : Z := (%d)%%Z.\n", k, v)
+		for _, k := range deadNames {
+			fmt.Fprintf(&b, "Definition domain_level_%s : Z := (%d)%%Z.\n", k, dl[k])
 		}
 		fmt.Fprintf(&b, "Definition domain_level_DeadCodeSeverity_other : Z := (%d)%%Z.\n", ddef)
-		for _, k := range []string{"MockDataSeverityInfo", "MockDataSeverityWarning", "MockDataSeverityError"} {
-			v, ok := ml[k]
-			if !ok {
-				fail("gen_check: %s missing from MockDataSeverity.Level", k)
-			}
-			fmt.Fprintf(&b, "Definition domain_level_%s : Z := (%d)%%Z.\n", k, v)
+		for _, k := range mockNames {
+			fmt.Fprintf(&b, "Definition domain_level_%s : Z := (%d)%%Z.\n", k, ml[k])
 		}
 		fmt.Fprintf(&b, "Definition domain_level_MockDataSeverity_other : Z := (%d)%%Z.\n", mdef)
-		for _, recv := range []string{"DeadCodeSeverity", "MockDataSeverity"} {
-			file := "dead_code.go"
-			if recv == "MockDataSeverity" {
-				file = "mock_data.go"
-			}
-			fd := findFunc(dom, file, recv, "IsAtLeast")
+		for _, it := range []struct {
+			recv, file string
+			names      []string
+			tab        map[string]int64
+		}{{"DeadCodeSeverity", "dead_code.go", deadNames, dl}, {"MockDataSeverity", "mock_data.go", mockNames, ml}} {
+			fd := findFunc(dom, it.file, it.recv, "IsAtLeast")
 			if fd == nil {
-				fail("gen_check: %s.IsAtLeast not found", recv)
+				fail("gen_check: %s.IsAtLeast not found", it.recv)
 				continue
 			}
-			op, n := findCmp(fd, "s.Level()", "minSeverity.Level()")
-			if n != 1 {
-				// call expressions do not print through selName; look for the single comparison of two calls
-				n = 0
-				ast.Inspect(fd, func(nd ast.Node) bool {
-					if be, ok := nd.(*ast.BinaryExpr); ok {
-						cx, okx := be.X.(*ast.CallExpr)
-						cy, oky := be.Y.(*ast.CallExpr)
-						if okx && oky && selName(cx.Fun) == "s.Level" && selName(cy.Fun) == "minSeverity.Level" {
-							op = be.Op
-							n++
-						}
-					}
-					return true
-				})
-			}
-			s, ok := coqCmp(op)
-			if n != 1 || !ok {
-				fail("gen_check: comparison in %s.IsAtLeast not found", recv)
+			// three constants with increasing levels: the middle one is the threshold
+			ns := append([]string{}, it.names...)
+			sort.SliceStable(ns, func(i, j int) bool { return it.tab[ns[i]] < it.tab[ns[j]] })
+			if !(it.tab[ns[0]] < it.tab[ns[1]] && it.tab[ns[1]] < it.tab[ns[2]]) {
+				fail("gen_check: the levels of %s are not three distinct numbers", it.recv)
 				continue
 			}
-			fmt.Fprintf(&b, "Definition domain_%s_is_at_least (a b : Z) : bool := %s.  (* s.Level() %s minSeverity.Level() *)\n", recv, s, op)
+			val := func(n string) Value {
+				c := dom.pkg.Scope().Lookup(n).(*types.Const)
+				v, _ := constToValue(c.Val(), c.Type())
+				return v
+			}
+			op, ok := probe3("gen_check: "+it.recv+".IsAtLeast", func(rel int64) (bool, error) {
+				return asBool(in.call1(dom, fd, val(ns[1+rel]), val(ns[1])))
+			})
+			if !ok {
+				continue
+			}
+			sc, _ := coqCmp(op)
+			fmt.Fprintf(&b, "Definition domain_%s_is_at_least (a b : Z) : bool := %s.  (* s.Level() %s minSeverity.Level() *)\n", it.recv, sc, op)
 		}
 
 		sevLevel := func(e ast.Expr, tab map[string]int64, what string) int64 {
@@ -312,65 +333,111 @@ func init() {
 			return v
 		}
 
-		// ---- checkComplexity ------------------------------------------------------------
+		// ---- checkComplexity: interpreted with the analysis stubbed out ------------------------------------------
 		fcx := findFunc(cmd, "check.go", "CheckCommand", "checkComplexity")
 		if fcx == nil {
 			fail("gen_check: checkComplexity not found")
 			return
 		}
-		b.WriteString("\n(* checkComplexity: request literal and the gate comparison *)\n")
-		cf := compositeFields(fcx, "domain.ComplexityRequest")
-		for _, k := range []string{"MinComplexity", "MaxComplexity"} {
-			v, ok := intLit(cf[k])
-			if cf == nil || cf[k] == nil || !ok {
-				fail("gen_check: ComplexityRequest.%s literal not found in checkComplexity", k)
-				continue
-			}
-			fmt.Fprintf(&b, "Definition check_req_%s : Z := (%d)%%Z.\n", k, v)
-		}
-		if op, n := findCmp(fcx, "function.Metrics.Complexity", "maxComplexity"); n == 1 {
-			s, _ := coqCmp(op)
-			fmt.Fprintf(&b, "Definition check_cx_exceeds (a b : Z) : bool := %s.  (* function.Metrics.Complexity %s maxComplexity *)\n", s, op)
-		} else {
-			fail("gen_check: comparison `function.Metrics.Complexity OP maxComplexity` found %d times in checkComplexity", n)
-		}
-		if op, n := findCmp(fcx, "response.Request.MaxComplexity", "0"); n == 1 {
-			s, _ := coqCmp(op)
-			fmt.Fprintf(&b, "Definition check_cfg_max_given (a b : Z) : bool := %s.  (* response.Request.MaxComplexity %s 0 *)\n", s, op)
-		} else {
-			// rhs is a BasicLit: selName gives "?"; search explicitly
-			n = 0
-			var op token.Token
-			ast.Inspect(fcx, func(nd ast.Node) bool {
-				if be, ok := nd.(*ast.BinaryExpr); ok && selName(be.X) == "response.Request.MaxComplexity" {
-					if v, ok := intLit(be.Y); ok && v == 0 {
-						op = be.Op
-						n++
-					}
+		b.WriteString("\n(* checkComplexity: request literal and the gate comparison (read by evaluation) *)\n")
+		// runComplexity(flag value, flag given, merged request maximum (nil: no request), complexities, analysis error)
+		var cxRequest *Struct // the request checkComplexity hands to the use case
+		runComplexity := func(flagValue int64, given bool, reqMax *int64, cxs []int64, failAnalysis bool) (int64, bool, error) {
+			st := newCheckStubs()
+			st.changed["max-complexity"] = given
+			st.calls["useCase.AnalyzeAndReturn"] = func(c *CallCtx) []Value {
+				if c.NArgs() == 2 {
+					cxRequest, _ = c.Arg(1).(*Struct)
 				}
-				return true
-			})
-			s, ok := coqCmp(op)
-			if n != 1 || !ok {
-				fail("gen_check: comparison `response.Request.MaxComplexity OP 0` not found in checkComplexity")
-			} else {
-				fmt.Fprintf(&b, "Definition check_cfg_max_given (a b : Z) : bool := %s.  (* response.Request.MaxComplexity %s 0 *)\n", s, op)
+				if failAnalysis {
+					return []Value{nil, &ErrVal{Msg: "analysis error"}}
+				}
+				fns := &Slice{}
+				for i, cx := range cxs {
+					fns.E = append(fns.E, mkStruct("FunctionComplexity", "Name", fmt.Sprintf("f%d", i), "FilePath", "a.py", "StartLine", int64(i+1), "StartColumn", int64(0),
+						"Metrics", mkStruct("ComplexityMetrics", "Complexity", cx)))
+				}
+				var req Value
+				if reqMax != nil {
+					req = mkStruct("ComplexityRequest", "MaxComplexity", *reqMax, "MinComplexity", int64(1))
+				} else {
+					req = (*Struct)(nil)
+				}
+				return []Value{mkStruct("ComplexityResponse", "Functions", fns, "Request", req), nil}
 			}
+			in.Extern = st.hook
+			defer func() { in.Extern = nil }()
+			c := mkStruct("CheckCommand", "maxComplexity", flagValue, "quiet", false, "configFile", "")
+			vs, err := in.CallFunc(cmd, fcx, c, mkStruct("cobra.Command"), mkSlice("."))
+			if err != nil {
+				return 0, false, err
+			}
+			if len(vs) != 2 {
+				return 0, false, fmt.Errorf("checkComplexity returned %d results", len(vs))
+			}
+			n, _ := vs[0].(int64)
+			return n, !isNilVal(vs[1]), nil
 		}
-		// the flag that is tested with Flags().Changed
-		changed := ""
-		ast.Inspect(fcx, func(nd ast.Node) bool {
-			if ce, ok := nd.(*ast.CallExpr); ok {
-				if se, ok := ce.Fun.(*ast.SelectorExpr); ok && se.Sel.Name == "Changed" && len(ce.Args) == 1 {
-					if bl, ok := ce.Args[0].(*ast.BasicLit); ok {
-						changed, _ = strconv.Unquote(bl.Value)
+		z := func(v int64) *int64 { return &v }
+		if _, _, err := runComplexity(10, true, z(0), []int64{3}, false); err != nil {
+			fail("gen_check: checkComplexity cannot be evaluated: %v", err)
+		} else {
+			for _, k := range []string{"MinComplexity", "MaxComplexity"} {
+				v, ok := int64(0), false
+				if cxRequest != nil {
+					v, ok = cxRequest.F[k].(int64)
+				}
+				if !ok {
+					fail("gen_check: ComplexityRequest.%s is not set to an integer by checkComplexity", k)
+					continue
+				}
+				fmt.Fprintf(&b, "Definition check_req_%s : Z := (%d)%%Z.\n", k, v)
+			}
+			if op, ok := probe3("gen_check: checkComplexity: complexity against the threshold", func(rel int64) (bool, error) {
+				n, _, err := runComplexity(20, true, z(0), []int64{20 + rel}, false)
+				return n == 1, err
+			}); ok {
+				sc, _ := coqCmp(op)
+				fmt.Fprintf(&b, "Definition check_cx_exceeds (a b : Z) : bool := %s.  (* function.Metrics.Complexity %s maxComplexity *)\n", sc, op)
+			}
+			// the merged request value replaces the flag default when the flag is not given and the value is "given":
+			// a function of complexity 5 is an issue under a threshold of -1/0/1 but not under the flag value 10
+			if op, ok := probe3("gen_check: checkComplexity: merged MaxComplexity against 0", func(rel int64) (bool, error) {
+				n, _, err := runComplexity(10, false, z(rel), []int64{5}, false)
+				return n == 1, err
+			}); ok {
+				sc, _ := coqCmp(op)
+				fmt.Fprintf(&b, "Definition check_cfg_max_given (a b : Z) : bool := %s.  (* response.Request.MaxComplexity %s 0 *)\n", sc, op)
+			}
+			// decision table: (((flag given, flag value), merged request maximum), complexities) -> (issue count, error)
+			dflt := ints["max-complexity"]
+			var rows []string
+			cxLists := [][]int64{{}, {1}, {4, 5, 6}, {9, 10, 11}, {11, 12, 13, 1, 30}, {6, 7, 8}}
+			for _, cfg := range []struct {
+				given bool
+				flag  int64
+				req   int64
+			}{{true, 5, 0}, {true, 10, 7}, {true, 0, 12}, {true, 12, 5}, {false, dflt, 0}, {false, dflt, 1}, {false, dflt, 5}, {false, dflt, 7}, {false, dflt, 12}} {
+				for _, cxs := range cxLists {
+					n, failed, err := runComplexity(cfg.flag, cfg.given, z(cfg.req), cxs, false)
+					if err != nil {
+						fail("gen_check: checkComplexity cannot be evaluated: %v", err)
+						break
 					}
+					var items []string
+					for _, x := range cxs {
+						items = append(items, coqZint(x))
+					}
+					rows = append(rows, fmt.Sprintf("((((%s, %s), %s), [%s]), (%s, %s))", coqBool(cfg.given), coqZint(cfg.flag), coqZint(cfg.req), strings.Join(items, "; "), coqZint(n), coqBool(failed)))
 				}
 			}
-			return true
-		})
-		if changed != "max-complexity" {
-			fail("gen_check: checkComplexity no longer tests Flags().Changed(\"max-complexity\") (found %q)", changed)
+			if n, failed, err := runComplexity(10, false, z(0), []int64{50}, true); err == nil {
+				rows = append(rows, fmt.Sprintf("((((false, %s), (0)%%Z), [(50)%%Z]), (%s, %s))", coqZint(dflt), coqZint(n), coqBool(failed)))
+				if !failed {
+					fail("gen_check: checkComplexity does not report an analysis error")
+				}
+			}
+			emitTable(&tb, "checkComplexity_table", "(((bool * Z) * Z) * list Z) * (Z * bool)", rows)
 		}
 
 		// ---- checkDeadCode ----------------------------------------------------------------
@@ -422,57 +489,117 @@ func init() {
 			fmt.Fprintf(&b, "\nDefinition check_mock_gate_level : Z := (%d)%%Z.  (* %s *)\n", sevLevel(mockGate, ml, "mock gate"), selName(mockGate))
 		}
 
-		// ---- runCheck ---------------------------------------------------------------------
+		// ---- runCheck: interpreted with the five analyses stubbed out ---------------------------------------------
 		frc := findFunc(cmd, "check.go", "CheckCommand", "runCheck")
 		if frc == nil {
 			fail("gen_check: runCheck not found")
 			return
 		}
-		b.WriteString("\n(* runCheck: cycle threshold and final decision *)\n")
-		if op, n := findCmp(frc, "depsIssues", "c.maxCycles"); n == 1 {
-			s, _ := coqCmp(op)
-			fmt.Fprintf(&b, "Definition check_cycles_exceed (a b : Z) : bool := %s.  (* depsIssues %s c.maxCycles *)\n", s, op)
-		} else {
-			fail("gen_check: comparison `depsIssues OP c.maxCycles` found %d times in runCheck", n)
+		b.WriteString("\n(* runCheck: cycle threshold and final decision (read by evaluation) *)\n")
+		type phase struct {
+			n   int64
+			err bool
 		}
-		{
-			n := 0
-			var op token.Token
-			ast.Inspect(frc, func(nd ast.Node) bool {
-				if be, ok := nd.(*ast.BinaryExpr); ok && selName(be.X) == "issueCount" {
-					if v, ok := intLit(be.Y); ok && v == 0 {
-						op = be.Op
-						n++
+		type runFlags struct {
+			quiet, allowDead, skipClones, allowCirc bool
+			maxCycles                               int64
+		}
+		phaseNames := []string{"c.checkComplexity", "c.checkDeadCode", "c.checkClones", "c.checkCircularDependencies", "c.checkMockdata"}
+		var resolveArgs []Value
+		runCheck := func(sel []string, fl runFlags, ph [5]phase) (bool, error) {
+			st := newCheckStubs()
+			for i, name := range phaseNames {
+				p := ph[i]
+				st.calls[name] = func(c *CallCtx) []Value {
+					if p.err {
+						return []Value{int64(0), &ErrVal{Msg: "phase failed"}}
 					}
+					return []Value{p.n, nil}
 				}
-				return true
-			})
-			s, ok := coqCmp(op)
-			if n != 1 || !ok {
-				fail("gen_check: comparison `issueCount OP 0` found %d times in runCheck", n)
-			} else {
-				fmt.Fprintf(&b, "Definition check_has_issues (a b : Z) : bool := %s.  (* issueCount %s 0 *)\n", s, op)
 			}
+			st.suffix[".ResolveConfigPath"] = func(c *CallCtx) []Value {
+				resolveArgs = nil
+				for i := 0; i < c.NArgs(); i++ {
+					resolveArgs = append(resolveArgs, c.Arg(i))
+				}
+				return []Value{"RESOLVED", nil}
+			}
+			in.Extern = st.hook
+			defer func() { in.Extern = nil }()
+			sl := &Slice{}
+			for _, x := range sel {
+				sl.E = append(sl.E, x)
+			}
+			c := mkStruct("CheckCommand", "configFile", "CFG", "quiet", fl.quiet, "maxComplexity", int64(10), "allowDeadCode", fl.allowDead,
+				"skipClones", fl.skipClones, "allowCircularDeps", fl.allowCirc, "maxCycles", fl.maxCycles, "selectAnalyses", sl)
+			v, err := in.call1(cmd, frc, c, mkStruct("cobra.Command"), mkSlice("TARGET", "OTHER"))
+			if err != nil {
+				return false, err
+			}
+			return !isNilVal(v), nil
 		}
+		if _, err := runCheck(nil, runFlags{}, [5]phase{}); err != nil {
+			fail("gen_check: runCheck cannot be evaluated: %v", err)
+		} else {
+			if op, ok := probe3("gen_check: runCheck: cycles against --max-cycles", func(rel int64) (bool, error) {
+				return runCheck([]string{"deps"}, runFlags{maxCycles: 3}, [5]phase{{}, {}, {}, {n: 3 + rel}, {}})
+			}); ok {
+				sc, _ := coqCmp(op)
+				fmt.Fprintf(&b, "Definition check_cycles_exceed (a b : Z) : bool := %s.  (* depsIssues %s c.maxCycles *)\n", sc, op)
+			}
+			if op, ok := probe3("gen_check: runCheck: issue count against 0", func(rel int64) (bool, error) {
+				return runCheck([]string{"complexity"}, runFlags{}, [5]phase{{n: rel}, {}, {}, {}, {}})
+			}); ok {
+				sc, _ := coqCmp(op)
+				fmt.Fprintf(&b, "Definition check_has_issues (a b : Z) : bool := %s.  (* issueCount %s 0 *)\n", sc, op)
+			}
+			// does runCheck resolve the config file from the first target (as analyze does)?
+			fromTarget := len(resolveArgs) == 2 && resolveArgs[0] == "CFG" && resolveArgs[1] == "TARGET"
+			fmt.Fprintf(&b, "Definition check_config_from_target : bool := %v.  (* runCheck calls ResolveConfigPath(c.configFile, args[0]) *)\n", fromTarget)
 
-		// does runCheck resolve the config file from the first target (as analyze does)?
-		{
-			fromTarget := false
-			ast.Inspect(frc, func(nd ast.Node) bool {
-				if ce, ok := nd.(*ast.CallExpr); ok {
-					if se, ok := ce.Fun.(*ast.SelectorExpr); ok && se.Sel.Name == "ResolveConfigPath" && len(ce.Args) == 2 {
-						if selName(ce.Args[0]) == "c.configFile" {
-							if ix, ok := ce.Args[1].(*ast.IndexExpr); ok && selName(ix.X) == "args" {
-								if v, ok := intLit(ix.Index); ok && v == 0 {
-									fromTarget = true
-								}
+			// decision table: ((select, ((quiet, allow-dead-code, skip-clones, allow-circular-deps), max-cycles)), five (issues, error)) -> command fails
+			sels := [][]string{{}, {"complexity"}, {"deadcode"}, {"clones"}, {"deps"}, {"circular"}, {"mockdata"}, {"deps", "complexity"},
+				{"bogus"}, {"complexity", "bogus"}, {"complexity", "deadcode", "clones", "deps", "mockdata"}, {"clones", "mockdata"}}
+			flagSets := []runFlags{{}, {quiet: true}, {allowDead: true}, {skipClones: true}, {allowCirc: true}, {maxCycles: 2}, {allowCirc: true, maxCycles: 2}}
+			var phs [][5]phase
+			phs = append(phs, [5]phase{})
+			for i := 0; i < 5; i++ {
+				var one, bad [5]phase
+				one[i].n = 1
+				bad[i].err = true
+				phs = append(phs, one, bad)
+			}
+			phs = append(phs, [5]phase{{}, {}, {}, {n: 2}, {}}, [5]phase{{}, {}, {}, {n: 3}, {}}, [5]phase{{n: 1}, {n: 1}, {n: 1}, {n: 1}, {n: 1}},
+				[5]phase{{n: 2}, {err: true}, {n: 1}, {n: 3}, {}}, [5]phase{{}, {n: 4}, {err: true}, {}, {n: 2}})
+			var rows []string
+			bad := false
+			for _, sel := range sels {
+				for _, fl := range flagSets {
+					for _, ph := range phs {
+						failed, err := runCheck(sel, fl, ph)
+						if err != nil {
+							if !bad {
+								fail("gen_check: runCheck cannot be evaluated: %v", err)
 							}
+							bad = true
+							continue
 						}
+						var ss, ps []string
+						for _, x := range sel {
+							ss = append(ss, tedStr(x))
+						}
+						for _, x := range ph {
+							ps = append(ps, fmt.Sprintf("(%s, %s)", coqZint(x.n), coqBool(x.err)))
+						}
+						rows = append(rows, fmt.Sprintf("((([%s], ((%s, %s, %s, %s), %s)), [%s]), %s)", strings.Join(ss, "; "), coqBool(fl.quiet), coqBool(fl.allowDead),
+							coqBool(fl.skipClones), coqBool(fl.allowCirc), coqZint(fl.maxCycles), strings.Join(ps, "; "), coqBool(failed)))
 					}
 				}
-				return true
-			})
-			fmt.Fprintf(&b, "Definition check_config_from_target : bool := %v.  (* runCheck calls ResolveConfigPath(c.configFile, args[0]) *)\n", fromTarget)
+			}
+			if bad {
+				rows = nil
+			}
+			emitTable(&tb, "runCheck_table", "((list string * ((bool * bool * bool * bool) * Z)) * list (Z * bool)) * bool", rows)
 		}
 
 		// ---- merge sentinels in package service ---------------------------------------------
@@ -545,6 +672,7 @@ func init() {
 		}
 
 		writeGen("CheckConst.v", b.String())
+		writeGen("CheckTables.v", tb.String())
 
 		for _, f := range []string{"runCheck", "determineEnabledAnalyses", "containsAnalysis", "validateSelectedAnalyses",
 			"checkComplexity", "checkDeadCode", "checkClones", "checkCircularDependencies", "checkMockdata", "CreateCobraCommand"} {
@@ -566,4 +694,45 @@ func init() {
 			recordDigest(cfgp, "toml_loader.go", "TomlConfigLoader", "FindConfigFileFromPath")
 		}
 	})
+}
+
+// checkStubs: the Extern hook used to interpret the functions of cmd/pyscn/check.go: construction of services and use
+// cases, cobra plumbing and printing are stubbed; `calls` / `suffix` give the results of the calls that matter.
+type checkStubs struct {
+	changed map[string]bool // cmd.Flags().Changed(name)
+	calls   map[string]func(c *CallCtx) []Value
+	suffix  map[string]func(c *CallCtx) []Value
+}
+
+func newCheckStubs() *checkStubs {
+	return &checkStubs{changed: map[string]bool{}, calls: map[string]func(c *CallCtx) []Value{}, suffix: map[string]func(c *CallCtx) []Value{}}
+}
+
+func (st *checkStubs) hook(c *CallCtx) ([]Value, bool) {
+	if f, ok := st.calls[c.Name]; ok {
+		return f(c), true
+	}
+	for sfx, f := range st.suffix {
+		if strings.HasSuffix(c.Name, sfx) {
+			return f(c), true
+		}
+	}
+	switch {
+	case strings.HasSuffix(c.Name, ".Changed") && c.NArgs() == 1:
+		name, _ := c.Arg(0).(string)
+		return []Value{st.changed[name]}, true
+	case strings.HasSuffix(c.Name, ".Flags") && c.NArgs() == 0:
+		return []Value{mkStruct("pflag.FlagSet")}, true
+	case strings.HasSuffix(c.Name, ".Context") && c.NArgs() == 0:
+		return []Value{nil}, true
+	case c.Name == "context.Background" || c.Name == "context.TODO":
+		return []Value{mkStruct("context.Context")}, true
+	case strings.HasSuffix(c.Name, ".ErrOrStderr") || strings.HasSuffix(c.Name, ".OutOrStdout") || strings.HasSuffix(c.Name, ".OutOrStderr"):
+		return []Value{mkStruct("io.Writer")}, true
+	case c.Name == "fmt.Fprintf" || c.Name == "fmt.Fprintln" || c.Name == "fmt.Fprint":
+		return []Value{int64(0), nil}, true
+	case strings.HasPrefix(c.Name, "service.New") || strings.HasPrefix(c.Name, "app.New") || strings.HasPrefix(c.Name, "config.New"):
+		return []Value{mkStruct(c.Name)}, true
+	}
+	return nil, false
 }
